@@ -95,6 +95,7 @@ class World:
         self.ctx_name = lambda: "?"          # current caller name (set by executor)
         self.ctx_site = lambda: None         # current httpcore call site
         self.on_change = None                # invariant hook (wire / pool changed)
+        self.on_assign = None                # hook: the pool hands a connection to a request
         self.cur_token = {}                  # caller name -> token being worked on
         self.observing = False               # set while an oracle inspects the SUT
         self.fault_sites = []                # (op index, fault, op kind, httpcore site)
